@@ -70,7 +70,7 @@ def dur_by_arith(d):
 
 def build(desc):
     if desc.get("via") == "parse":        # one parser object for the whole process, across calendar-mode switches
-        return _PARSE_ALL.parse(rec_text(desc))
+        return (_PARSE_ALL if desc["n"] % 2 else _PARSE_ALL.parse)(rec_text(desc))       # (calling the parser object is parse())
     n = desc["n"] or None
     a = mk_tp(desc["a"])
     mkd = dur_by_arith if desc.get("dvia") == "arith" else mk_dur
